@@ -63,7 +63,8 @@ CHECKS["C12"] = dict(
 CHECKS["C15"] = dict(
     text="Clause 1 proved: trim_candles on a time-ordered list = filter (ts >= newest - lifespan), the newest candle always survives, and "
          "after every construction/append of a manager the retained candles are exactly that window of the collapsed (and filled) "
-         "candles. Clause 2 for one reading: for SMA, EMA, RMA, WMA, VWMA, ROC, TR, OBV, Counter, HLA the value computed at an index is "
+         "candles; the window is the same for every append schedule: mgr_append cfg (tasks cfg xs) ys = tasks cfg (xs ++ ys) for the "
+         "manager with timeframe and lifespan. Clause 2 for one reading: for SMA, EMA, RMA, WMA, VWMA, ROC, TR, OBV, Counter, HLA the value computed at an index is "
          "the same with or without a trimmed prefix that leaves the class's look-back. Correspondence: manager with lifespan, all timeframe/fill variants (check_mgr) and every indicator kind fed candle by "
          "candle under a lifespan that always keeps its look-back (check_ind); falsifier: window against an untrimmed twin after every "
          "append, and readings on the retained candles equal to the untrimmed twin's for all 27 kinds.",
